@@ -239,6 +239,76 @@ def generate(rng, opts=None, name='M'):
 
 
 # ---------------------------------------------------------------------------
+# hand-made corner modules (each one is the minimal shape of a defect found,
+# or of a rule the random generator reaches rarely); values are listed with
+# the type they belong to
+
+def _m(name, t, opt=None, tag=None):
+    m = {'name': name, 't': t, 'opt': opt}
+    if tag is not None:
+        m['tag'] = tag
+    return m
+
+
+def _mod(tags, types):
+    return {'name': 'M', 'tags': tags, 'ext_implied': False, 'types': types, 'values': []}
+
+
+def corner_modules():
+    INT = {'k': 'INTEGER', 'c': None, 'named': None}
+    BOOL = {'k': 'BOOLEAN'}
+    NULL = {'k': 'NULL'}
+    OCT = {'k': 'OCTET STRING', 'size': None}
+    IA5 = {'k': 'STRING', 'sk': 'IA5String', 'size': None, 'alpha': None}
+    UTF8 = {'k': 'STRING', 'sk': 'UTF8String', 'size': None, 'alpha': None}
+    BITS = {'k': 'BIT STRING', 'size': None, 'named': None}
+    NBITS = {'k': 'BIT STRING', 'size': None, 'named': [('x', 0), ('y', 3)]}
+    ENUM = {'k': 'ENUMERATED', 'root': [('e0', 0), ('e1', 1)], 'ext': [('x0', 300)]}
+    out = []
+    # absent OPTIONAL component with a long tag, short last component (tag comparison at the end of the data)
+    for tagnum in (31, 16384):
+        for inner in (INT, OCT, IA5):
+            t = {'k': 'SEQUENCE', 'root': [_m('a', dict(inner), 'optional', ('', tagnum, '')), _m('b', NULL)], 'ext': None}
+            s = {'k': 'SET', 'root': [_m('a', dict(inner), 'optional', ('PRIVATE', tagnum, '')), _m('b', BOOL, None, ('', 0, ''))],
+                 'ext': None}
+            out.append((_mod('IMPLICIT', [('T0', t), ('T1', s)]),
+                        [('T0', {'b': None}), ('T1', {'b': True})]))
+    # extension additions absent / present, DEFAULT in additions and groups, nested (indefinite-length variants)
+    inner = {'k': 'SEQUENCE', 'root': [_m('a', BOOL)],
+             'ext': [{'member': _m('b', INT, 'optional')}, {'member': _m('c', BOOL, ('default', True))},
+                     {'group': [_m('d', NBITS, ('default', (b'\x80', 1))), _m('e', OCT, ('default', b'\x10')),
+                                _m('f', ENUM, ('default', 'e1'))]}]}
+    outer = {'k': 'SEQUENCE', 'root': [_m('s', {'k': 'REF', 'name': 'T0'}), _m('n', NULL)],
+             'ext': [{'member': _m('t', {'k': 'SEQUENCE OF', 'elem': {'k': 'REF', 'name': 'T0'}, 'size': None}, 'optional')}]}
+    out.append((_mod('AUTOMATIC', [('T0', inner), ('T1', outer)]),
+                [('T0', {'a': True}), ('T0', {'a': False, 'b': 5}), ('T0', {'a': True, 'b': -1, 'c': False}),
+                 ('T0', {'a': True, 'd': (b'\x80\x00', 9), 'e': b'\x10', 'f': 'e1'}),
+                 ('T0', {'a': True, 'c': True, 'd': (b'\x90', 4), 'e': b'', 'f': 'x0'}),
+                 ('T1', {'s': {'a': True}, 'n': None}),
+                 ('T1', {'s': {'a': True, 'b': 1}, 'n': None, 't': [{'a': False}, {'a': True, 'c': False}]})]))
+    # SET with additions whose tags sort before / between the root components
+    st = {'k': 'SET', 'root': [_m('m1', BOOL, None, ('APPLICATION', 16383, '')), _m('m2', NULL, None, ('', 0, ''))],
+          'ext': [{'member': _m('a3', {'k': 'SET OF', 'elem': INT, 'size': None}, None, ('APPLICATION', 5, 'EXPLICIT'))},
+                  {'member': _m('a4', IA5, 'optional', ('PRIVATE', 1, ''))},
+                  {'member': _m('a5', INT, ('default', 7), ('UNIVERSAL', 40, ''))}]}
+    out.append((_mod('EXPLICIT', [('T0', st)]),
+                [('T0', {'m1': True, 'm2': None}), ('T0', {'m1': False, 'm2': None, 'a3': [300, -1, 5, 0]}),
+                 ('T0', {'m1': True, 'm2': None, 'a3': [], 'a4': 'ab', 'a5': 7}),
+                 ('T0', {'m1': True, 'm2': None, 'a3': [2 ** 64], 'a4': '', 'a5': -7})]))
+    # named bits with trailing zeros, unused bits, empty strings, long lengths, universal-class tags
+    misc = {'k': 'SEQUENCE', 'root': [_m('nb', NBITS), _m('b', BITS, None, ('UNIVERSAL', 41, '')),
+                                      _m('o', OCT, None, ('UNIVERSAL', 100, 'EXPLICIT')), _m('u', UTF8),
+                                      _m('so', {'k': 'SET OF', 'elem': OCT, 'size': None})], 'ext': None}
+    out.append((_mod('IMPLICIT', [('T0', misc)]),
+                [('T0', {'nb': (b'\x80\x00', 16), 'b': (b'\xff\x80', 9), 'o': bytes(127), 'u': 'a\u00e5\u4e2d\U0001f600',
+                         'so': [b'\x02', b'', b'\x01\x00', b'\x01']}),
+                 ('T0', {'nb': (b'', 0), 'b': (b'', 0), 'o': bytes(range(200)), 'u': '', 'so': []}),
+                 ('T0', {'nb': (b'\x00\x10', 13), 'b': (b'\x00', 1), 'o': bytes(256), 'u': 'x' * 130,
+                         'so': [bytes(130), bytes(129), b'\x00']})]))
+    return out
+
+
+# ---------------------------------------------------------------------------
 # export to Coq with tags
 
 def coq_tag(tag):
